@@ -169,6 +169,11 @@ func (c *Ctx) schemaVisitsFrom(fam *expFamily, fd *ast.FuncDecl, target types.Ob
 									out[p] = vi
 								}
 							}
+							// the storage the target designates is itself expanded and overwritten with the outcome
+							// (meaningful to a caller that handed a reference to one of its own positions)
+							if !o.copy {
+								out[""] = &visitInfo{call: call, stored: true}
+							}
 						}
 						continue
 					}
@@ -349,7 +354,7 @@ func (c *Ctx) callCoverage(fam *expFamily, fd *ast.FuncDecl, oc *originCtx, hp t
 					continue
 				}
 				gp := c.paramObj(gfd, ai)
-				if gp == nil || !isNamed(gp.Type(), c.Types, typ) {
+				if gp == nil || typ != "" && !isNamed(gp.Type(), c.Types, typ) {
 					continue
 				}
 				c.saw(c.funcName(gfd))
@@ -361,8 +366,42 @@ func (c *Ctx) callCoverage(fam *expFamily, fd *ast.FuncDecl, oc *originCtx, hp t
 			}
 		}
 	}
+	// delegation of a part of the holder (a pointer, map or slice below it) to a function that is not an element
+	// expander: what that function covers below its parameter is covered below that part
+	for ai, a := range call.Args {
+		for _, o := range oc.origins(a, 0) {
+			if o.root != hp || len(o.steps) == 0 || o.copy || depth >= 2 {
+				continue
+			}
+			gfd := c.decl(g)
+			if gfd == nil || gfd.Body == nil {
+				continue
+			}
+			gp := c.paramObj(gfd, ai)
+			if gp == nil || !isRefType(gp.Type()) {
+				continue
+			}
+			if c.isElementParam(gp.Type()) {
+				continue // an element: handled below
+			}
+			c.saw(c.funcName(gfd))
+			for p, w := range c.holderCoverage(fam, gfd, gp, "", depth+1) {
+				key := joinPath(o.sub(), p)
+				if prev, had := out[key]; !had || (prev != "" && w == "") {
+					out[key] = w
+				}
+			}
+		}
+	}
 	if !fam.members[g] {
 		return out
+	}
+	if gfd := c.decl(g); gfd != nil {
+		if gp := c.paramObj(gfd, 0); gp != nil {
+			if !c.isElementParam(gp.Type()) {
+				return out // a family member that works on a container, not on one element
+			}
+		}
 	}
 	res := c.resultVarOfCall(fd, call)
 	for _, o := range oc.origins(call.Args[0], 0) {
@@ -1073,3 +1112,13 @@ func ruleRefStore(c *Ctx) {
 
 var _ = sort.Strings
 var _ = strings.HasPrefix
+
+// isElementParam: the parameter type designates one expandable element (a Schema, Parameter, Response, PathItem
+// or Operation, by value or pointer, or an interface holding one of them).
+func (c *Ctx) isElementParam(t types.Type) bool {
+	if _, isIface := types.Unalias(t).Underlying().(*types.Interface); isIface {
+		return true
+	}
+	nt, ok := types.Unalias(derefType(t)).(*types.Named)
+	return ok && nt.Obj().Pkg() == c.Types && elementTypes[nt.Obj().Name()]
+}
